@@ -8,16 +8,25 @@ from .series_props import specs_solver, fold_canaries
 def check(tier, seed):
     d = Decision("C16", tier, seed)
     d.add_units(fold_canaries(run_units(specs_solver(tier) + specs_secondq(tier) + specs_direct(tier))))
+    d.add_lean(["PV.Direct.greens_solves", "PV.Direct.constrained_injective"])
     d.assumptions += [
+        "direct_greens_function: preconditions - kernel_vectors K / left_kernel_vectors L are bases of the right / left kernel of E - h with L^H K = 1 (established by the caller's "
+        "biorthonormality check, contracts/bd_guards.py) and K spans the whole kernel; A-SC: pivoted QR of a full-column-rank n x k matrix returns k leading pivots whose rows form an "
+        "invertible k x k submatrix (this is what turns 'pivots of L' / 'pivots of K' into the row_gauge / col_gauge hypotheses of PV.Direct.*); the sparse LU / MUMPS solve is exact; "
+        "a real factorisation applied to real and imaginary part separately is the complex solve; with MUMPS and an empty kernel the symmetric storage flag additionally needs h symmetric "
+        "(true for Hermitian real h; not checkable here - MUMPS is not installed)",
+        "A-NP2 (linalg._constrain_matrix): tocoo() enumerates the stored entries once; boolean-mask indexing of parallel arrays keeps them aligned; np.concatenate appends; "
+        "csr_array((data,(rows,cols))) has exactly the entries given (pivot rows are pairwise distinct)",
         "A-NP2 pointwise models of the numpy / scipy.sparse / sympy-matrix functions used by solve_sylvester_diagonal (listed under assumed_contracts_used)",
         "np.isclose: equal values are close (only this direction is used)",
         "COO representation of a sparse right-hand side is canonical (no duplicate entries)",
     ]
     d.not_decided += [
         "kpm.greens_function: loop-exit postcondition proved for any number of iterations (residual of the returned vector <= atol unless a RuntimeWarning was issued); "
-        "direct_greens_function / _constrain_matrix, _group_close_energies and solve_sylvester_KPM's rescaling are not under deductive contract: they are covered by the bounded "
-        "battery section 'solvers' only (scipy LU, KDTree / argsort grouping, KPM convergence are external); solve_sylvester_direct is under a structural contract "
-        "(which Green's function serves which level / row, projections, sign), its numerical content rests on direct_greens_function; "
+        "_group_close_energies and _kernel_pivot_rows (pivoted QR) are not under deductive contract: they are covered by the bounded "
+        "battery section 'solvers' only (scipy LU, QR, argsort grouping, KPM convergence are external); solve_sylvester_direct is under a structural contract "
+        "(which Green's function serves which level / row, projections, sign); direct_greens_function under an assembly contract and _constrain_matrix under an entry-wise contract, "
+        "joined by the Lean lemmas PV.Direct.greens_solves / constrained_injective; "
         "KPM accuracy is a numerical-analysis statement outside this technique",
         "implicit-mode branches of solve_sylvester_diagonal (vecs_implicit) are not instantiated",
     ]
@@ -26,6 +35,9 @@ def check(tier, seed):
                      "equal to Y_ab/(E_a-F_b) where |E_a-F_b| > atol and 0 elsewhere (sympy: where E_a = F_b), the first-use check raises exactly for "
                      "shared energies and records the pair only on success; the formula is proved to solve E_a V - V F_b = Y (nlsat).  Second-quantized solver: solve_scalar is "
                      "proved to satisfy H_ii V - V H_jj = Y on every occupation state for an arbitrary term (contracts/secondq.py), and solve_sylvester_2nd_quant to fill every "
-                     "entry from the scalar problem of its row and column energies.")
-    d.run_battery("bd_battery.py", ["solvers"], "matrices of size <= 30, 2 explicit blocks, real/complex, degenerate explicit levels, KPM with 0/1/5 auxiliary vectors; see replay/bd_battery.py")
-    return d.finish(level="proof", trusted_base=["contracts/sylvester.py", "pyvc/pw.py"])
+                     "entry from the scalar problem of its row and column energies.  Direct Green's function: _constrain_matrix is proved entry-wise to return (1 - D)(E - h) + S "
+                     "(D = projection on the replaced rows, S = unit rows of the constrained unknowns); direct_greens_function is proved to factorise exactly that matrix with the rows taken from the "
+                     "pivots of the LEFT kernel basis and the unknowns from the RIGHT one, and its closure to return P solve((1 - D) P v) without touching the caller's vector; the Lean lemma "
+                     "PV.Direct.greens_solves then gives (E - h) x = P v and P x = x, PV.Direct.constrained_injective that the factorised matrix is non-singular.")
+    d.run_battery("bd_battery.py", ["solvers"], "matrices of size <= 30, 2 explicit blocks, real/complex, degenerate explicit levels, non-normal H_0 with biorthogonal bases (incl. left vector vanishing on the right pivot), KPM with 0/1/5 auxiliary vectors; see replay/bd_battery.py")
+    return d.finish(level="proof", trusted_base=["contracts/sylvester.py", "contracts/linalg_direct.py", "pyvc/pw.py", "leanalg/lean/PV/Direct.lean"])
